@@ -180,6 +180,12 @@ def functional_selectors(tier):
     singles = [S.cx(c) for c in pool]
     lists = [(x,) for x in cxs] + [(x, y) for x in singles for y in singles if x != y]
     lists += [(x, y) for x in cxs[len(pool):len(pool) + 40] for y in singles[:2]]
+    # the same complex selectors in LAST and in MIDDLE position of the list, and two complex selectors side by side: what the parser
+    # holds when the closing parenthesis arrives (a pending left-hand chain) differs from what it holds at a comma
+    nrev = 24 if tier == 'quick' else 40
+    lists += [(y, x) for x in cxs[len(pool):len(pool) + nrev] for y in singles[:2]]
+    lists += [(singles[1], x, singles[0]) for x in cxs[len(pool):len(pool) + nrev:2]]
+    lists += [(x, y) for x, y in zip(cxs[len(pool):len(pool) + nrev], cxs[len(pool) + 7:len(pool) + 7 + nrev])]
     out = []
     anchors = [None, S.T('a'), S.T('*')]
     for fn in ('not', 'is', 'where', 'matches'):
